@@ -1,8 +1,194 @@
 package main
 
-import "golang.org/x/tools/go/ssa"
+import (
+	"bufio"
+	"encoding/json"
+	"fmt"
+	"os"
+	"os/exec"
+	"path/filepath"
+	"strings"
+	"sync"
+
+	"golang.org/x/tools/go/ssa"
+)
 
 type ssaValue = ssa.Value
 
-// runVariants: thorough-tier both-ways self-check (DESIGN §5); see variants_*.go
-func runVariants(prop, repo, verif string) []variantResult { return nil }
+// A variant is an in-memory edit of /repo's current source (applied through
+// packages.Config.Overlay; nothing is written under /repo). "breaking"
+// variants must be reported by the named rule; "refactor" variants are
+// behaviour-preserving and must stay silent (DESIGN §5).
+type variantSpec struct {
+	Name   string   `json:"name"`
+	Kind   string   `json:"kind"` // breaking | refactor
+	File   string   `json:"file"` // relative to the repository root
+	Old    string   `json:"old"`
+	New    string   `json:"new"`
+	Edits  []vEdit  `json:"edits,omitempty"` // additional edits (possibly other files)
+	Expect []string `json:"expect,omitempty"` // rule ids (any of) that must fire for a breaking variant
+	Note   string   `json:"note,omitempty"`
+}
+
+type vEdit struct {
+	File string `json:"file"`
+	Old  string `json:"old"`
+	New  string `json:"new"`
+}
+
+func loadVariants(verif, prop string) []variantSpec {
+	f, err := os.Open(filepath.Join(verif, "variants", prop+".jsonl"))
+	if err != nil {
+		return nil
+	}
+	defer f.Close()
+	var out []variantSpec
+	sc := bufio.NewScanner(f)
+	sc.Buffer(make([]byte, 1<<20), 1<<20)
+	for sc.Scan() {
+		line := strings.TrimSpace(sc.Text())
+		if line == "" || strings.HasPrefix(line, "#") {
+			continue
+		}
+		var v variantSpec
+		if err := json.Unmarshal([]byte(line), &v); err != nil {
+			fatalf("variants/%s.jsonl: %v", prop, err)
+		}
+		out = append(out, v)
+	}
+	return out
+}
+
+// runVariants: thorough-tier both-ways self-check.
+func runVariants(prop, repo, verif string) []variantResult {
+	specs := loadVariants(verif, prop)
+	if len(specs) == 0 {
+		return nil
+	}
+	self, err := os.Executable()
+	if err != nil {
+		fatalf("cannot locate own executable: %v", err)
+	}
+	tmp, err := os.MkdirTemp("", "qedlint-variants-")
+	if err != nil {
+		fatalf("tempdir: %v", err)
+	}
+	defer os.RemoveAll(tmp)
+	results := make([]variantResult, len(specs))
+	sem := make(chan struct{}, 5)
+	var wg sync.WaitGroup
+	for i, v := range specs {
+		i, v := i, v
+		wg.Add(1)
+		go func() {
+			defer wg.Done()
+			sem <- struct{}{}
+			defer func() { <-sem }()
+			results[i] = runOneVariant(self, prop, repo, verif, tmp, i, v)
+		}()
+	}
+	wg.Wait()
+	return results
+}
+
+func runOneVariant(self, prop, repo, verif, tmp string, idx int, v variantSpec) variantResult {
+	res := variantResult{Name: v.Name, Kind: v.Kind}
+	edits := append([]vEdit{{File: v.File, Old: v.Old, New: v.New}}, v.Edits...)
+	contents := map[string]string{}
+	for _, e := range edits {
+		abs := filepath.Join(repo, e.File)
+		src, ok := contents[abs]
+		if !ok {
+			b, err := os.ReadFile(abs)
+			if err != nil {
+				res.Expected, res.Got, res.OK = "applicable", "stale: file missing: "+e.File, true
+				return res
+			}
+			src = string(b)
+		}
+		if strings.Count(src, e.Old) != 1 {
+			// the source changed since the variant was written: not applicable any more (not a verdict)
+			res.Expected, res.Got, res.OK = "applicable", fmt.Sprintf("stale: pattern occurs %d times in %s", strings.Count(src, e.Old), e.File), true
+			return res
+		}
+		contents[abs] = strings.Replace(src, e.Old, e.New, 1)
+	}
+	var pairs []string
+	n := 0
+	for abs, src := range contents {
+		tf := filepath.Join(tmp, fmt.Sprintf("v%d_%d.go", idx, n))
+		n++
+		if err := os.WriteFile(tf, []byte(src), 0o644); err != nil {
+			fatalf("variant temp file: %v", err)
+		}
+		pairs = append(pairs, abs+"="+tf)
+	}
+	cmd := exec.Command(self, "-prop", prop, "-tier", "quick", "-repo", repo, "-verif", verif, "-noevidence", "-overlay", strings.Join(pairs, ","))
+	out, _ := cmd.CombinedOutput()
+	code := cmd.ProcessState.ExitCode()
+	var fired []string
+	for _, line := range strings.Split(string(out), "\n") {
+		if strings.HasPrefix(line, "FAIL ") {
+			f := strings.Fields(line)
+			if len(f) > 1 {
+				fired = append(fired, f[1])
+			}
+		}
+	}
+	switch v.Kind {
+	case "breaking":
+		res.Expected = "reported by " + strings.Join(v.Expect, "|")
+		if code == 2 {
+			res.Got = "checker error: " + firstLine(string(out))
+			return res
+		}
+		hit := false
+		for _, f := range fired {
+			if len(v.Expect) == 0 {
+				hit = true
+			}
+			for _, e := range v.Expect {
+				if f == prop+"."+e || f == e {
+					hit = true
+				}
+			}
+		}
+		res.OK = hit
+		res.Got = "fired: " + strings.Join(uniq(fired), ",")
+		if len(fired) == 0 {
+			res.Got = "silent"
+		}
+	default:
+		res.Expected = "silent"
+		res.OK = code == 0 && len(fired) == 0
+		res.Got = "silent"
+		if !res.OK {
+			res.Got = "fired: " + strings.Join(uniq(fired), ",") + " " + firstLine(string(out))
+		}
+	}
+	return res
+}
+
+func firstLine(s string) string {
+	for _, l := range strings.Split(s, "\n") {
+		if strings.Contains(l, "CHECKER-ERROR") {
+			return l
+		}
+	}
+	if i := strings.Index(s, "\n"); i >= 0 {
+		return s[:i]
+	}
+	return s
+}
+
+func uniq(xs []string) []string {
+	seen := map[string]bool{}
+	var out []string
+	for _, x := range xs {
+		if !seen[x] {
+			seen[x] = true
+			out = append(out, x)
+		}
+	}
+	return out
+}
